@@ -7,7 +7,7 @@ KINDS = ['Always', 'Output', 'Ephemeral']
 NAMES = ['A', 'B', 'C', 'D', 'E', 'F']
 
 
-def heval_universe(mod, nodes, edges, mode='ident', name='', stale=()):
+def heval_universe(mod, nodes, edges, mode='ident', name='', stale=(), inputs=None):
     """H-EVAL: arbitrary well-formed history over the universe's keys.
     WF: H[j] present <=> H[j!!!] present (same presence atom)."""
     hist = {}
@@ -16,12 +16,30 @@ def heval_universe(mod, nodes, edges, mode='ident', name='', stale=()):
         hist[j] = (Out(('h', j)), ('p', j))
         hist[j + '!!!'] = (Out(('hn', j)), ('p', j))
         if k == 'Output':
-            present[j] = ('present', j)
+            if mode == 'prod':
+                for part in j.split(':::'):
+                    present[part] = ('present', part)
+            else:
+                present[j] = ('present', j)
     for d, u in edges:
         hist['%s!!!%s' % (u, d)] = (Out(('he', u, d)), ('pe', u, d))
     for key in stale:
         hist[key] = (Out(('hs', key)), ('ps', key))
-    return Universe(mod, nodes, edges, mode, hist, present, name=name)
+    uni = Universe(mod, nodes, edges, mode, hist, present, name=name, inputs=inputs)
+    # strengthened history invariant (inductive given the superseded-record filter of new_history, which the C18
+    # obligations check on every returned history): once a job has records under its current id, no record of a
+    # job whose id shares an output with it survives
+    from . import sym as F
+    axioms = []
+    ids = set(j for j, _ in nodes)
+    for j, _ in nodes:
+        parts = set(j.split(':::'))
+        for key in stale:
+            a = key.split('!!!')[0]
+            if a not in ids and parts & set(a.split(':::')):
+                axioms.append(F.Not(F.And(F.Atom(('p', j)), F.Atom(('ps', key)))))
+    uni.axioms = axioms
+    return uni
 
 
 def all_dags(n):
